@@ -40,16 +40,22 @@ def distance_edge_class(g, np):
     return g._c15_distance_edge
 
 
-def build(P, g, fam):
-    """a small graph of real edges for one family"""
+def build(P, g, fam, aliased=False):
+    """a small graph of real edges for one family.  aliased: ONE pose object serves as vertex 1's initial pose, as the
+    odometry measurement and as the landmark edge's offset, and the landmark's pose object is also the landmark
+    measurement (users build graphs like that: ``step = PoseSE2(...)`` reused everywhere)"""
     np = P.np
     pose_k, pt_k = fam, POINT_OF[fam]
     v0 = g.Vertex(0, mk_pose(P, g, pose_k, "v0", wrapped=True))
     v1 = g.Vertex(1, mk_pose(P, g, pose_k, "v1", wrapped=True))
     v2 = g.Vertex(2, mk_pose(P, g, pt_k, "v2", wrapped=True))
     n, m = COMPACT[pose_k], COMPACT[pt_k]
-    e_od = g.EdgeOdometry([0, 1], P.sym_matrix("omA", n, psd=True), mk_pose(P, g, pose_k, "zA", wrapped=True))
-    e_lm = g.EdgeLandmark([1, 2], P.sym_matrix("omB", m, psd=True), mk_pose(P, g, pt_k, "zB"), mk_pose(P, g, pose_k, "off", wrapped=True), offset_id=3)
+    if aliased:
+        e_od = g.EdgeOdometry([0, 1], P.sym_matrix("omA", n, psd=True), v1.pose)
+        e_lm = g.EdgeLandmark([1, 2], P.sym_matrix("omB", m, psd=True), v2.pose, v1.pose, offset_id=3)
+    else:
+        e_od = g.EdgeOdometry([0, 1], P.sym_matrix("omA", n, psd=True), mk_pose(P, g, pose_k, "zA", wrapped=True))
+        e_lm = g.EdgeLandmark([1, 2], P.sym_matrix("omB", m, psd=True), mk_pose(P, g, pt_k, "zB"), mk_pose(P, g, pose_k, "off", wrapped=True), offset_id=3)
 
     DistanceEdge = distance_edge_class(g, np)
     e_cu = DistanceEdge([0, 1], np.array([[P.real("omC", lo=0.1, hi=5.0)]]), P.real("zC"))
@@ -253,10 +259,10 @@ def _pose_ops(kind):
     return fn
 
 
-def _optimize_real(fam):
+def _optimize_real(fam, aliased=False):
     def fn(P, g):
         env = install_stubs(P, g)
-        graph, verts, edges = build(P, g, fam)
+        graph, verts, edges = build(P, g, fam, aliased=aliased)
         before = snapshot(graph, verts, edges)
         import warnings
 
@@ -414,6 +420,7 @@ def cases(tier):
             out.append(Case("graph-%s-%s" % (fam, qname), _graph_case(fam, qname), timeout=10, old_timeout=20, validate=1, feas_timeout_ms=1000, val_tol=1e-3))
         out.append(Case("poseops-%s" % fam, _pose_ops(fam), timeout=10, old_timeout=20, validate=v, feas_timeout_ms=1000, val_tol=1e-3))
         out.append(Case("optimize-real-%s" % fam, _optimize_real(fam), timeout=10, old_timeout=20, validate=1, feas_timeout_ms=1000, val_tol=1e-3))
+        out.append(Case("optimize-real-aliased-%s" % fam, _optimize_real(fam, aliased=True), timeout=10, old_timeout=20, validate=1, feas_timeout_ms=1000, val_tol=1e-3))
     for mi in (1, 2, 3):
         out.append(Case("optimize-free-it%d" % mi, _optimize_free(mi), timeout=10, validate=1, feas_timeout_ms=1500, val_tol=1e-3))
     out.append(Case("optimize-free-nofixed-it1", _optimize_free(1, fixed=()), timeout=10, validate=1, feas_timeout_ms=1500, val_tol=1e-3))
